@@ -1,4 +1,5 @@
 import Iauthd.Proto.Props
+import Iauthd.Proto.ModesAgree
 /-
   Property C06 — "Queries are timely and carry the client's own data" (model part).
 -/
@@ -37,5 +38,13 @@ theorem C06_limits (lim : Limits) (r : Req) (n : Nat) (s : Bytes) :
 /-- what is copied is a prefix of what the server reported -/
 theorem C06_prefix (n : Nat) (s : Bytes) : strncpyN n s <+: s := by
   unfold strncpyN; exact List.take_prefix n s
+
+
+/-- the trace judge and the daemon accept the same PASS texts as `<modes> <account> <password>` and
+    read the same net modes (+x, +!) out of the mode word - for every text -/
+theorem C06_password_readers_agree (pw : Bytes) :
+    (Hist.wellShaped pw).isSome = (checkPasswordShape pw).isSome ∧
+    ∀ n m cred, Hist.wellShaped pw = some n → checkPasswordShape pw = some (m, cred) → AccRel m n :=
+  password_readers_agree pw
 
 end Iauthd.Properties
